@@ -72,6 +72,16 @@ def discharge(ob, timeout_ms, use_cvc5=True, want_candidate=True):
     gs = z3.simplify(g) if not z3.is_quantifier(g) else g
     if z3.is_true(gs):
         return {"status": "proved", "backend": "evaluation", "seconds": 0.0}
+    if ob.info.get("only_hyps") is not None:
+        # lemma chaining: the goal is checked from the listed hypotheses only (each is itself an obligation or a stated fact)
+        s1 = z3.Solver()
+        s1.set("timeout", max(timeout_ms, 90000))
+        for c in ob.info["only_hyps"]:
+            s1.add(c)
+        s1.add(z3.Not(g))
+        r1 = s1.check()
+        if r1 == z3.unsat:
+            return {"status": "proved", "backend": "z3", "seconds": time.time() - t0}
     if ob.info.get("backend") == "sympy":
         from pyvc import sympy_backend
         import signal
@@ -124,6 +134,16 @@ def discharge(ob, timeout_ms, use_cvc5=True, want_candidate=True):
     if r == z3.sat:
         return {"status": "refuted", "backend": "z3", "seconds": dt, "model": s.model()}
     reason = s.reason_unknown()
+    if ob.info.get("only_hyps") is not None:
+        # lemma chaining: the goal is checked from the listed hypotheses only (each is itself an obligation or a stated fact)
+        s1 = z3.Solver()
+        s1.set("timeout", max(timeout_ms, 90000))
+        for c in ob.info["only_hyps"]:
+            s1.add(c)
+        s1.add(z3.Not(g))
+        r1 = s1.check()
+        if r1 == z3.unsat:
+            return {"status": "proved", "backend": "z3", "seconds": time.time() - t0}
     if ob.info.get("backend") == "sympy":
         reason = f"sympy: {sympy_reason}; z3: {reason}"
     if use_cvc5 and ob.info.get("backend") != "sympy":
@@ -602,7 +622,10 @@ def main(argv=None):
             undecided.append((label, f"solver {fails[0]['status']} ({fails[0].get('reason')}), obligation not in lock"))
     if lock is not None and not a.unit:
         missing = sorted(set(lock) - all_labels)
+        failed_units = {v[0].split("/")[0] for v in violations} | {u[0].split("/")[0] for u in undecided if u[0]}
         for l in missing:
+            if l.split("/")[0] in failed_units:
+                continue      # downstream of an obligation of the same function that already failed (unit returns early)
             if not any(l.startswith(u[0] or "") for u in undecided if u[0]) and not errors:
                 undecided.append((l, "locked obligation was not generated"))
     if a.update_lock and not a.unit:
